@@ -119,6 +119,12 @@ def judge_split(A, u, s, v, q, q0, q1, tol, rec, prefix=''):
             err2=err2, discarded=tot - kept2, tot=tot)
     disc = 1 - kept2 / tot
     require(disc <= tol + TOL, prefix + 'discarded relative weight exceeds the tolerance', discarded=disc, tol=tol)
+    # the same clause without cancellation, for tolerances far below 1e-12: the discarded weight summed from the small singular values
+    # themselves (accurate to rounding of the SVD, ~1e-32 in relative weight); only a gross excess (factor 10) is judged here, the
+    # neighbourhood of the threshold is left to the clause above
+    disc_tail = float(np.sum(sig[k:] ** 2)) / tot
+    require(disc_tail <= 10 * tol + 1e-24, prefix + 'discarded relative weight exceeds a tiny tolerance by more than a factor of ten',
+            discarded=disc_tail, tol=tol)
     # kept values are the k largest singular values of A
     ss = np.sort(np.asarray(s))[::-1]
     dev = np.max(np.abs(ss - sig[:k]))
@@ -184,7 +190,10 @@ def check_svd(case, rec):
 
 @st.composite
 def tol_strategy(draw):
-    mode = draw(st.sampled_from(['zero', 'value', 'value', 'cum', 'cum', 'small']))
+    mode = draw(st.sampled_from(['zero', 'value', 'value', 'cum', 'cum', 'small', 'tiny']))
+    if mode == 'tiny':
+        # positive tolerances below machine epsilon (1 - tol == 1 in floating point)
+        return {'mode': 'value', 'x': draw(st.sampled_from([1e-16, 3e-17, 1e-20, 3e-21, 1e-100, 5e-324]))}
     if mode == 'zero':
         return {'mode': 'value', 'x': 0.0}
     if mode == 'value':
